@@ -338,17 +338,45 @@ type stats struct {
 	logs        int
 	segLookups  int
 	bsQueries   int
+	// inconsistent data providers: cases generated, and cases in which the evaluation actually
+	// received an item whose own key differs from the key it asked for
+	aliased     int
+	aliasedUsed int
 }
 
 func newStats() *stats {
-	return &stats{map[string]int{}, map[string]int{}, map[string]int{}, map[string]int{}, map[string]int{}, 0, 0, 0, 0}
+	return &stats{map[string]int{}, map[string]int{}, map[string]int{}, map[string]int{}, map[string]int{}, 0, 0, 0, 0, 0, 0}
 }
 
 func (s *stats) add(streamName string, c *EvalCase) {
 	s.streams[streamName]++
 	s.ctxShapes[c.Ctx.T]++
+	aliasedKeys := map[string]bool{}
+	for i := range c.Store.Flags {
+		if c.Store.Flags[i].LK != nil && *c.Store.Flags[i].LK != c.Store.Flags[i].Key {
+			aliasedKeys["f:"+*c.Store.Flags[i].LK] = true
+		}
+	}
+	for i := range c.Store.Segments {
+		if c.Store.Segments[i].LK != nil && *c.Store.Segments[i].LK != c.Store.Segments[i].Key {
+			aliasedKeys["s:"+*c.Store.Segments[i].LK] = true
+		}
+	}
+	if len(aliasedKeys) > 0 {
+		s.aliased++
+	}
 	if c.Go == nil {
 		return
+	}
+	used := false
+	for _, k := range c.Go.FlagLookups {
+		used = used || aliasedKeys["f:"+k]
+	}
+	for _, k := range c.Go.SegLookups {
+		used = used || aliasedKeys["s:"+k]
+	}
+	if used {
+		s.aliasedUsed++
 	}
 	s.outcomes[c.Go.Outcome]++
 	s.reasonKinds[c.Go.Result.Reason.Kind]++
@@ -364,7 +392,8 @@ func (s *stats) add(streamName string, c *EvalCase) {
 func (s *stats) toMap() map[string]any {
 	return map[string]any{"reason_kinds": s.reasonKinds, "error_kinds": s.errorKinds, "outcomes": s.outcomes,
 		"streams": s.streams, "context_shapes": s.ctxShapes, "events": s.events, "log_lines": s.logs,
-		"segment_lookups": s.segLookups, "bigseg_queries": s.bsQueries}
+		"segment_lookups": s.segLookups, "bigseg_queries": s.bsQueries,
+		"inconsistent_store_cases": s.aliased, "inconsistent_store_item_served": s.aliasedUsed}
 }
 
 func sortedKeys(m map[string]int) []string {
